@@ -39,6 +39,8 @@ Definition val_eqb (a b : val) : bool :=
 
 Definition two63 : Z := 9223372036854775808%Z.
 Definition in_i64 (z : Z) : bool := ((- two63 <=? z) && (z <? two63))%Z.
+(* int64 arithmetic wraps (table.maxPK++) *)
+Definition wrap64 (z : Z) : Z := ((z + two63) mod (2 * two63) - two63)%Z.
 
 (* strconv.FormatInt(z, 10): the implicit INTEGER -> VARCHAR conversion of EncodeRawValue *)
 Fixpoint dec_digits (fuel : nat) (n : N) (acc : bytes) : bytes :=
@@ -135,25 +137,18 @@ Definition live_of (kvs : Z * list ver) : list (Z * row) :=
   end.
 Definition live_rows (c : cstate) : list (Z * row) := flat_map live_of (c_rows c).
 
-(* ---------- the store index view: ordered key -> versions (tx, tombstone), newest first ---------- *)
-Definition kv := list (bytes * list (N * bool)).
-Fixpoint kv_add (k : bytes) (e : N * bool) (m : kv) : kv :=
-  match m with
-  | [] => [(k, [e])]
-  | (k', es) :: r =>
-      match bcmp k k' with
-      | Eq => (k', e :: es) :: r
-      | Lt => (k, [e]) :: m
-      | Gt => (k', es) :: kv_add k e r
-      end
-  end.
-Definition kv_build (es : list (bytes * (N * bool))) : kv :=
-  fold_right (fun ke m => kv_add (fst ke) (snd ke) m) [] es.
+(* ---------- the store index views ---------- *)
+(* The primary index view is [c_rows] itself: primary key -> versions (tx, tombstone flag, row),
+   newest first, keys ascending.  A secondary index view lists, for every index key, its newest
+   entry (tx, tombstone flag).  Keys under one value prefix appear in primary-key order, which is
+   their order in the sorted index (same prefix, then the order-preserving encoding of the key);
+   no modelled operation observes the relative order of keys under different value prefixes. *)
+Definition entry := (N * bool)%type.
 
 (* indexer.indexSince with InjectiveMapping, for the unique index on v: entries produced by the
    versions of one primary key (newest first): the mapped key of every version, plus a tombstone
    on the previous version's mapped key when it differs *)
-Fixpoint u_entries (k : Z) (vs : list ver) : list (bytes * (N * bool)) :=
+Fixpoint u_entries (k : Z) (vs : list ver) : list (bytes * entry) :=
   match vs with
   | [] => []
   | x :: older =>
@@ -164,35 +159,31 @@ Fixpoint u_entries (k : Z) (vs : list ver) : list (bytes * (N * bool)) :=
        | [] => []
        end) ++ u_entries k older
   end.
-Definition u_all (ts : N) (rows : list (Z * list ver)) : list (bytes * (N * bool)) :=
-  flat_map (fun kvs => u_entries (fst kvs) (vers_at ts (snd kvs))) rows.
-Definition uview (ts : N) (rows : list (Z * list ver)) : kv := kv_build (u_all ts rows).
-
-Definition p_entries (kvs : Z * list ver) : list (bytes * (N * bool)) :=
-  map (fun v => (pkey (fst kvs), (v_tx v, v_del v))) (snd kvs).
-Definition pview (ts : N) (rows : list (Z * list ver)) : kv :=
-  kv_build (flat_map (fun kvs => p_entries (fst kvs, vers_at ts (snd kvs))) rows).
-
-(* tbtree Snapshot.GetWithPrefix: the FIRST key >= prefix; found only when it carries the prefix *)
-Definition first_ge (p : bytes) (m : kv) : option (bytes * list (N * bool)) :=
-  find (fun ke => match bcmp (fst ke) p with Lt => false | _ => true end) m.
-Definition get_with_prefix (p : bytes) (m : kv) : option (bytes * (N * bool)) :=
-  match first_ge p m with
-  | Some (k, e :: _) => if has_prefix p k then Some (k, e) else None
-  | _ => None
+(* newest entry of every key: first occurrences *)
+Fixpoint dedup (seen : list bytes) (es : list (bytes * entry)) : list (bytes * entry) :=
+  match es with
+  | [] => []
+  | e :: r => if existsb (bytes_eqb (fst e)) seen then dedup seen r else e :: dedup (fst e :: seen) r
   end.
+Definition uview (ts : N) (rows : list (Z * list ver)) : list (bytes * entry) :=
+  flat_map (fun kvs => dedup [] (u_entries (fst kvs) (vers_at ts (snd kvs)))) rows.
+Definition pview (ts : N) (rows : list (Z * list ver)) : list (bytes * entry) :=
+  flat_map (fun kvs => match vers_at ts (snd kvs) with
+                       | v :: _ => [(pkey (fst kvs), (v_tx v, v_del v))]
+                       | [] => [] end) rows.
+
+(* the entries under a prefix, in index order *)
+Definition under (p : bytes) (m : list (bytes * entry)) : list (bytes * entry) :=
+  filter (fun ke => has_prefix p (fst ke)) m.
+(* tbtree Snapshot.GetWithPrefix: the FIRST key under the prefix, and nothing else *)
+Definition get_with_prefix (p : bytes) (m : list (bytes * entry)) : option (bytes * entry) :=
+  hd_error (under p m).
 (* ... followed by the IgnoreDeleted filter: a tombstone is reported as "key not found" *)
-Definition get_live_with_prefix (p : bytes) (m : kv) : option (bytes * N) :=
+Definition get_live_with_prefix (p : bytes) (m : list (bytes * entry)) : option (bytes * N) :=
   match get_with_prefix p m with
   | Some (k, (tx, false)) => Some (k, tx)
   | _ => None
   end.
-
-(* a key reader restricted to a prefix (proposed repair): every key under the prefix, in order *)
-Definition under (p : bytes) (m : kv) : list (bytes * (N * bool)) :=
-  flat_map (fun ke => if has_prefix p (fst ke) then
-                        match snd ke with e :: _ => [(fst ke, e)] | [] => [] end
-                      else []) m.
 
 (* ---------- MVCC read-set ---------- *)
 Inductive eread (K : Type) := ERead (k : K) (etx : N) | ENoMore.
@@ -312,8 +303,8 @@ Definition scan_items (c : cstate) (t : txs) (lo hi : option Z) : list (Z * (N *
            (filter (in_range lo hi) (all_keys c t ts)).
 Definition scan (c : cstate) (t : txs) (lo hi : option Z) : list (Z * row) * txs :=
   let items := scan_items c t lo hi in
-  let reads := map (fun it => ERead (fst it) (fst (fst (snd it)))) items ++ [ENoMore] in
-  (flat_map (fun it => if snd (fst (snd it)) then [] else [(fst it, snd (snd it))]) items,
+  let reads := map (fun it : Z * (N * bool * row) => ERead (fst it) (fst (fst (snd it)))) items ++ [ENoMore] in
+  (flat_map (fun it : Z * (N * bool * row) => if snd (fst (snd it)) then [] else [(fst it, snd (snd it))]) items,
    add_read (RRange lo hi false reads) (touch_p c t)).
 
 (* fetchPKRow: one Read on the range [k, k] *)
@@ -348,7 +339,7 @@ Definition check_unique_cur (c : cstate) (t : txs) (x : val) : res txs :=
          end
   end.
 (* proposed repair: a key reader under the prefix with IgnoreDeleted; exists iff some live key *)
-Fixpoint scan_pfx (es : list (bytes * (N * bool))) : list (eread bytes) * bool :=
+Fixpoint scan_pfx (es : list (bytes * entry)) : list (eread bytes) * bool :=
   match es with
   | [] => ([ENoMore], false)
   | (k, (tx, del)) :: r =>
@@ -421,7 +412,7 @@ Definition ins_row (g : cfg) (fx : fixes) (c : cstate) (m : imode) (t : txs) (r 
   let isInsert := match m with MUpsert => false | _ => true end in
   do kmt <- (match idv with
              | None => if k_autoinc g && isInsert
-                       then let n := (t_maxpk t + 1)%Z in Ok (n, false, set_maxpk n t)
+                       then let n := wrap64 (t_maxpk t + 1) in Ok (n, false, set_maxpk n t)
                        else Err ENotNull
              | Some VNull => Err ENotNull
              | Some (VStr _) => Err EType
@@ -535,8 +526,13 @@ Definition apply_writes (c : cstate) (t : txs) : cstate :=
          mkC tx (c_cat c) (c_uidx c) (c_nidx c)
              (fold_left (fun rows w => c_add (fst w) (mkVer tx (fst (snd w)) (snd (snd w))) rows) (t_rows t) (c_rows c))
   end.
+(* a transaction without entries returns ErrNoEntriesProvided from precommit before any
+   precondition is checked; SQLTx.Commit treats that as success *)
 Definition commit (c : cstate) (t : txs) : res cstate :=
-  if validate c t then Ok (apply_writes c t) else Err EConflict.
+  match t_rows t with
+  | [] => Ok c
+  | _ => if validate c t then Ok (apply_writes c t) else Err EConflict
+  end.
 
 (* CreateIndexStmt.execAt (autocommit).  UNIQUE: "check table is empty" *)
 Definition table_empty_cur (c : cstate) : bool :=
